@@ -307,7 +307,7 @@ func TestVerifC13Enc(t *testing.T) {
 	out := vOpen()
 	defer out.Close()
 	r := vNewRand(0xC13E)
-	for i, total := 0, vBudget(160, 10); i < total; i++ {
+	for i, total := 0, vBudget(120, 10); i < total; i++ {
 		g := &eGen{r: r}
 		c, term := g.cfg()
 		res, err := encoder.New(encoderConfig(c)).Encode(c)
